@@ -8,7 +8,7 @@ SIGS_OUT = ['', 'i', 's', 'is', 'ai', '(ii)', 'as', '(s)', 'a(is)']       # the 
 OUT_VALUE = {'': None, 'i': 5, 's': 'res', 'is': (4, 'four'), 'ai': [1, 2, 3], '(ii)': (1, 2), 'as': ['only'], '(s)': ('one',), 'a(is)': [(1, 'x')]}
 OUT_CANON = {'': None, 'i': [5], 's': ['res'], 'is': [4, 'four'], 'ai': [[1, 2, 3]], '(ii)': [[1, 2]], 'as': [['only']], '(s)': [['one']], 'a(is)': [[[1, 'x']]]}
 OUTCOMES = ['value', 'deferred', 'deferred_fail', 'raise_named', 'raise_plain', 'raise_badname', 'raise_nul', 'raise_oddclass', 'unencodable',
-            'raise_notimpl', 'raise_typeerror', 'deferred_fail_notimpl', 'raise_empty']
+            'raise_notimpl', 'raise_typeerror', 'deferred_fail_notimpl', 'raise_empty', 'raise_unnamed_base', 'deferred_fail_unnamed_base']
 
 
 class Conn:
@@ -25,6 +25,11 @@ class NamedError(Exception):
 
 class BadNameError(Exception):
     dbusErrorName = 'not a valid name'
+
+
+class AppError(Exception):
+    """base class of an application's exceptions: subclasses may give themselves a DBus name, this one has none"""
+    dbusErrorName = None
 
 
 # a Python class name that is not a valid DBus name element (identifiers may be non-ASCII)
@@ -80,6 +85,12 @@ def build_scenario(rnd):
             # failures of the call, named after their class, with their text
             if outcome == 'raise_notimpl':
                 raise NotImplementedError('subclass hook of impl %d' % impl_id)
+            if outcome == 'raise_unnamed_base':
+                raise AppError('no name of its own, impl %d' % impl_id)
+            if outcome == 'deferred_fail_unnamed_base':
+                d = defer.Deferred()
+                pending.append((d, 'fail', AppError('later and unnamed, impl %d' % impl_id)))
+                return d
             if outcome == 'raise_empty':
                 raise RuntimeError()                       # an exception without text: the message is that (empty) text
             if outcome == 'raise_typeerror':
@@ -262,14 +273,15 @@ def one_call(rnd, sc, serial):
                 'raise_badname': 'org.txdbus.InvalidErrorName', 'raise_nul': 'org.txdbus.PythonException.ValueError',
                 'raise_oddclass': 'org.txdbus.InvalidErrorName', 'raise_notimpl': 'org.txdbus.PythonException.NotImplementedError',
                 'raise_typeerror': 'org.txdbus.PythonException.TypeError', 'deferred_fail_notimpl': 'org.txdbus.PythonException.NotImplementedError',
-                'raise_empty': 'org.txdbus.PythonException.RuntimeError'}.get(outcome)
+                'raise_empty': 'org.txdbus.PythonException.RuntimeError', 'raise_unnamed_base': 'org.txdbus.PythonException.AppError',
+                'deferred_fail_unnamed_base': 'org.txdbus.PythonException.AppError'}.get(outcome)
     if type(r).__name__ != 'ErrorMessage':
         return '%s (outcome %s): reply is %s, expected an error' % (what, outcome, type(r).__name__)
     if want_err and r.error_name != want_err:
         return '%s (outcome %s): error reply named %r, expected %r' % (what, outcome, r.error_name, want_err)
     if outcome == 'raise_empty' and r.body and r.body[0] != '':
         return '%s (outcome %s): the exception has no text, the error reply carries the message %r' % (what, outcome, r.body[0])
-    if outcome in ('raise_notimpl', 'raise_typeerror', 'deferred_fail_notimpl') and not (r.body and 'impl' in str(r.body[0])):
+    if outcome in ('raise_notimpl', 'raise_typeerror', 'deferred_fail_notimpl', 'raise_unnamed_base', 'deferred_fail_unnamed_base') and not (r.body and 'impl' in str(r.body[0])):
         return '%s (outcome %s): the error reply carries %r, not the text of the exception' % (what, outcome, r.body)
     return None
 
@@ -292,6 +304,56 @@ def builtin_cases():
     return None
 
 
+def mixin_binding_case():
+    """decorator bindings declared on a plain mix-in class (not a DBusObject itself), combined with DBusObject in either base order and
+    at a second level of inheritance: correctly addressed calls - with and without naming the interface - run the implementation once"""
+    from txdbus import interface, message, objects
+    iface = interface.DBusInterface('org.verif.Mix', interface.Method('Mixed', arguments='s', returns='s'), interface.Method('Own', returns='i'), noRegister=True)
+    log = []
+
+    class Mixin:
+        @objects.dbusMethod('org.verif.Mix', 'Mixed')
+        def _impl_mixed(self, arg):
+            log.append(('Mixed', arg))
+            return 'mixed:' + arg
+
+    class A(objects.DBusObject, Mixin):
+        dbusInterfaces = [iface]
+
+        def dbus_Own(self):
+            log.append(('Own',))
+            return 3
+
+    class B(Mixin, objects.DBusObject):
+        dbusInterfaces = [iface]
+
+        def dbus_Own(self):
+            log.append(('Own',))
+            return 3
+
+    class C(A):
+        pass
+    for cls in (A, B, C):
+        conn = Conn()
+        handler = objects.DBusObjectHandler(conn)
+        handler.exportObject(cls('/org/verif/M'))
+        for named in (True, False):
+            del log[:]
+            del conn.sent[:]
+            call = message.MethodCallMessage('/org/verif/M', 'Mixed', interface='org.verif.Mix' if named else None, signature='s', body=['x'])
+            p = message.parseMessage(call.rawMessage, [])
+            p.sender = ':1.5'
+            try:
+                handler.handleMethodCallMessage(p)
+            except Exception as e:
+                return 'a call to a member bound by a decorator on a mix-in class (%s, interface %s) raised %s: %s' % (cls.__name__, 'named' if named else 'not named', type(e).__name__, e)
+            if log != [('Mixed', 'x')] or len(conn.sent) != 1 or type(conn.sent[0]).__name__ != 'MethodReturnMessage' or conn.sent[0].body != ['mixed:x']:
+                return ('a call to a member bound by a decorator on a mix-in class (bases of %s: %s; interface %s): implementation runs %r, replies %r'
+                        % (cls.__name__, ', '.join(b.__name__ for b in cls.__mro__[1:-1]), 'named' if named else 'not named', log,
+                           [(type(r).__name__, getattr(r, 'error_name', None), r.body) for r in conn.sent]))
+    return None
+
+
 def bounded(tier, seed):
     # failing implementations of calls that expect no reply leave unhandled Deferred failures behind, which Twisted reports
     # when they are collected (even at interpreter exit): silence that report in this harness process
@@ -306,6 +368,10 @@ def bounded(tier, seed):
     f = history_cases()
     if f:
         return n, f, {'case': 'history'}
+    n += 1
+    f = mixin_binding_case()
+    if f:
+        return n, f, {'case': 'mix-in bindings'}
     for s in range(6000 if tier == 'thorough' else 40):
         sc = build_scenario(rnd)
         for k in range(25):
